@@ -83,6 +83,13 @@ def ref_instants(case, tini, tfin):
     return [s + m / 1000.0 for s, m in case['ref']]
 
 
+def also(case):
+    """further keyword arguments of the call that must not matter once a step is given ("If both are specified, priority is given to delta"): a number of points, a factor, the algorithm named explicitly;
+    derived from the case itself so that every replay makes the same call"""
+    h = (len(case['X']) * 7 + int(case['T'][0]) + len(case.get('ref', []))) % 10
+    return [{}, {}, {}, {}, {}, {'npts': 4}, {'npts': 1}, {'factor': 3}, {'npts': 7, 'factor': 2}, {'algo': 1}][h]
+
+
 def run_temporal(case):
     from tracklib.core import ObsTime
     tr = mktrack(case['T'], case['ms'], case['X'], case['Y'], case['Z'])
@@ -98,7 +105,7 @@ def run_temporal(case):
             t.ms = m
             lst.append(t)
         arg = lst if case['form'] == 'list' else mktrack([s for s, _ in case['ref']], [m for _, m in case['ref']], *[[0.0] * len(lst)] * 3)
-    tr.resample(delta=arg, mode=2)
+    tr.resample(delta=arg, mode=2, **also(case))
     return observe(tr)
 
 
@@ -212,7 +219,7 @@ def run_spatial(case):
     tr.createAnalyticalFeature('a', 1.0)
     if case.get('zone'):
         tr.setTimeZone(case['zone'])              # a label on the timestamps: the instants, hence the interpolated ones, are the same wall-clock fields
-    tr.resample(delta=case['ds'], mode=1)
+    tr.resample(delta=case['ds'], mode=1, **also(case))
     o = observe(tr)
     o['S'] = abscissas(case)
     return o
